@@ -525,7 +525,7 @@ func extFormatFloat(fr *frame, args []value) value {
 func extParseFloat(fr *frame, args []value) value {
 	s, ok := args[0].(string)
 	if !ok {
-		fr.i.ps.abort("abort", "unsupported: strconv.ParseFloat on symbolic text")
+		return extParseFloatSym(fr, args) // ext_parsefloat.go
 	}
 	f, err := strconv.ParseFloat(s, int(fr.asInt64(args[1])))
 	if err != nil {
